@@ -659,7 +659,9 @@ func checkCompiledPaths(w *World, r *Report) {
 	for k := range shapes {
 		keys = append(keys, k)
 	}
-	sort.Slice(keys, func(i, j int) bool { return len(shapes[keys[i]]) > len(shapes[keys[j]]) || (len(shapes[keys[i]]) == len(shapes[keys[j]]) && keys[i] < keys[j]) })
+	sort.Slice(keys, func(i, j int) bool {
+		return len(shapes[keys[i]]) > len(shapes[keys[j]]) || (len(shapes[keys[i]]) == len(shapes[keys[j]]) && keys[i] < keys[j])
+	})
 	ref := keys[0]
 	for _, k := range keys {
 		for _, site := range shapes[k] {
@@ -680,7 +682,6 @@ func normaliseExpr(s string) string {
 }
 
 var _ = constant.MakeBool
-
 
 // checkFieldCorrespondence: R16.1b — where a CompiledTemplate is built from a Template and a
 // Template from a CompiledTemplate, name/source/lastModified are copied field to same-named field.
